@@ -126,12 +126,12 @@ Lemma history_then_render w ops maxcol maxrow ob :
     0 <= v_top v <= Z.max 0 (c_rows (o_canvas ob) - maxrow) /\
     v_shown v = Z.min maxrow (c_rows (o_canvas ob) - v_top v) /\
     v_blank v = Z.max 0 (maxrow - c_rows (o_canvas ob)) /\
-    (fits (o_canvas ob) maxcol maxrow = false -> trim_top st' = v_top v).
+    trim_top st' = v_top v /\ action st' = ANone.
 Proof.
   intros Hb Hm Hob w1.
   assert (Hb1 : has_bar w1 = false) by (subst w1; rewrite run_state_has_bar; exact Hb).
   destruct (s_render_total (w_inner w1) maxcol maxrow (o_canvas ob) Hm Hob)
-    as (st' & v & E & R & S & B & _ & _ & T & _).
+    as (st' & v & E & R & S & B & _ & _ & T & A & _).
   exists st', v. split; [exact E|]. split.
   - cbn [step]. rewrite Hb1. unfold w_inner in E. rewrite E. reflexivity.
   - repeat split; try lia; assumption.
